@@ -128,6 +128,8 @@ def check_inorder_accumulation(ctx, f: FuncInfo, acc: str, source: str, rule="OR
       problems.append(f"`{short(u, 50)}` inserts instead of appending")
     if isinstance(u, ast.Assign) and isinstance(u.value, ast.BinOp) and isinstance(u.value.op, ast.Add) and unparse(u.value.left) != acc:
       problems.append(f"`{short(u, 60)}` puts new items before the accumulated ones")
+    if isinstance(u, ast.Assign) and inside and not any(isinstance(x, ast.Name) and x.id == acc for x in ast.walk(u.value)):
+      problems.append(f"`{short(u, 60)}` replaces what was accumulated so far")
   if not updates:
     problems.append("no accumulator update found")
   ctx.check(not problems, rule, key, ctx.where(f.module, f.node), f"{len(updates)} in-order updates inside a single pass", "; ".join(problems) + ": items are no longer collected in document order")
@@ -1439,4 +1441,27 @@ def check_feed_close(ctx, funcs: typing.Iterable[FuncInfo], rule="PAIR-close"):
                   f"every path from `{short(fd, 40)}` passes `{var}.close()` before `{var}` is dropped",
                   f"`{short(fd, 40)}` is not followed by `{var}.close()` on every path: HTMLParser holds back the tail of the text (anything after a trailing `&` or `<`) "
                   f"until close(), so that text never reaches the handlers and is lost")
+  return n
+
+
+def check_raw_part_reads(ctx, funcs: typing.Iterable[FuncInfo], rule="ACC-raw"):
+  """`self.acc += part.F...` accumulates a value that arrives in parts (extension blocks).  Everything that is
+  computed from the value afterwards must read the accumulator; another read of `part.F` in the same function sees
+  only the last part.  Reported: any read of the part's field outside the accumulating statement."""
+  n = 0
+  for f in funcs:
+    accs = []
+    for st in own_nodes(f.node):
+      if isinstance(st, ast.AugAssign) and isinstance(st.op, ast.Add) and isinstance(st.target, ast.Attribute) and unparse(st.target.value) == "self":
+        for x in ast.walk(st.value):
+          if isinstance(x, ast.Attribute) and isinstance(x.value, ast.Name) and x.value.id not in ("self", "cls"):
+            accs.append((st, unparse(st.target), unparse(x)))
+    for (st, acc, part) in accs:
+      n += 1
+      others = [x for x in own_nodes(f.node) if isinstance(x, ast.Attribute) and unparse(x) == part and not any(y is x for y in ast.walk(st))]
+      ctx.unit(f.module)
+      ctx.check(not others, rule, f"{f.qualname}|{part} is read only to extend {acc}", ctx.where(f.module, others[0] if others else st),
+                f"`{part}` feeds `{acc}` and is not read elsewhere",
+                f"`{part}` is one part of a value that `{short(st, 50)}` accumulates over several calls, but line {others[0].lineno if others else 0} reads `{part}` again: "
+                f"it sees the last part only where the accumulated `{acc}` is meant")
   return n
